@@ -1,4 +1,5 @@
 pub mod crc;
+pub mod endpoint;
 pub mod forge;
 pub mod refdec;
 pub mod wire;
